@@ -53,6 +53,14 @@ def handlers(fn):
     return out
 
 
+def _derives(facts, cls, base, depth=0):
+    rec = facts.records.get(cls) or {}
+    for b in rec.get("bases", []):
+        if b["t"] == base or (depth < 6 and _derives(facts, b["t"], base, depth + 1)):
+            return True
+    return False
+
+
 def overrides_of(facts, method):
     """All in-repo definitions named <cls>::<method> whose class derives from BaseCborOutputWriter."""
     out = []
@@ -63,6 +71,8 @@ def overrides_of(facts, method):
         rec = facts.records.get(cls)
         if rec is None:
             continue
-        if cls == BASE or any(b["t"] == BASE for b in rec.get("bases", [])):
+        if f.get("flattened"):
+            continue          # body of an intermediate base: analysed as the copy each leaf class inherits (hierarchy.py)
+        if cls == BASE or _derives(facts, cls, BASE):
             out.append(f)
     return sorted(out, key=lambda f: (f["file"], f["line"]))
